@@ -5,7 +5,7 @@ patch="$1"; prop="$2"; tier="${3:-quick}"
 cd /repo || exit 9
 if ! git diff --quiet; then echo "REPO DIRTY - refusing"; exit 9; fi
 if ! git apply --3way "$patch" 2>/tmp/seedtest.err && ! git apply "$patch" 2>>/tmp/seedtest.err; then
-  git checkout -- . 2>/dev/null; git reset -q 2>/dev/null
+  git reset -q --hard HEAD 2>/dev/null
   echo "PATCH-DOES-NOT-APPLY $patch"; cat /tmp/seedtest.err | head -5; exit 8
 fi
 git reset -q 2>/dev/null
